@@ -1383,8 +1383,10 @@ impl Relation {
                 }
                 VersionConstraint::GreaterThan => {
                     builder.token(R_ANGLE.into(), ">");
+                    builder.token(R_ANGLE.into(), ">");
                 }
                 VersionConstraint::LessThan => {
+                    builder.token(L_ANGLE.into(), "<");
                     builder.token(L_ANGLE.into(), "<");
                 }
             }
